@@ -386,12 +386,19 @@ def _cases(tier, seed):
     for ndim in ((0, 1, 2, 3) if q else (0, 1, 2, 3, 4)):
         for nk, nb in ((2, 2),) if q or ndim > 2 else ((2, 2), (1, 3), (3, 1)):
             out.append(Case(f"component ndim={ndim} nk={nk} nb={nb}", case_component, dict(P=dict(ndim=ndim, nk=nk, nb=nb))))
+    # band selections that cut a (nearly) degenerate group: every tabulated band must still carry the value of its whole group (the Tabulator cases of the
+    # C15 harness: symbolic spectrum and threshold, every grouping pattern, ibands selections)
+    from props import c15
+    out += [Case("band selection vs degenerate groups: " + c.name, c.fn, c.kwargs, timeout=c.timeout) for c in c15.cases(tier, seed) if c.name.startswith("tabulator")]
     return out
 
 
 # ---- replay -----------------------------------------------------------------------------------------------------
 def replay(rec):
     w = rec["witness"]
+    if w.get("fn") == "Tabulator":          # band-selection case shared with the C15 harness
+        from props import c15
+        return c15.replay(rec)
     kind, P = w["kind"], w["P"]
     rng = np.random.default_rng(3)
     X = {}
